@@ -46,6 +46,27 @@ std::vector<ComponentPtr>::const_iterator ComponentEntity::ComponentEntityImpl::
                         [=](const ComponentPtr &c) -> bool { return c->equals(component); });
 }
 
+/**
+ * The entity that lists @p component as a child, when that entity is @p entity
+ * or is encapsulated by it; otherwise @c nullptr.
+ */
+static ComponentEntityPtr holderWithin(const ComponentPtr &component, const ComponentEntity *entity)
+{
+    if (component == nullptr) {
+        return nullptr;
+    }
+    auto holder = std::dynamic_pointer_cast<ComponentEntity>(component->parent());
+    auto ancestor = holder;
+    while (ancestor != nullptr) {
+        if (ancestor.get() == entity) {
+            return holder;
+        }
+        auto ancestorComponent = std::dynamic_pointer_cast<Component>(ancestor);
+        ancestor = (ancestorComponent != nullptr) ? std::dynamic_pointer_cast<ComponentEntity>(ancestorComponent->parent()) : nullptr;
+    }
+    return nullptr;
+}
+
 ComponentEntity::ComponentEntityImpl *ComponentEntity::pFunc()
 {
     return reinterpret_cast<ComponentEntity::ComponentEntityImpl *>(Entity::pFunc());
@@ -108,6 +129,14 @@ bool ComponentEntity::removeComponent(size_t index)
 
 bool ComponentEntity::removeComponent(const ComponentPtr &component, bool searchEncapsulated)
 {
+    if (searchEncapsulated) {
+        // The component itself, when it is encapsulated here, rather than the first component that equals it.
+        auto holder = holderWithin(component, this);
+        if ((holder != nullptr) && (holder.get() != this)) {
+            return holder->removeComponent(component, false);
+        }
+    }
+
     bool status = false;
     auto result = pFunc()->findComponent(component);
     if (result != pFunc()->mComponents.end()) {
@@ -270,6 +299,14 @@ bool ComponentEntity::replaceComponent(const std::string &name, const ComponentP
 
 bool ComponentEntity::replaceComponent(const ComponentPtr &oldComponent, const ComponentPtr &newComponent, bool searchEncapsulated)
 {
+    if (searchEncapsulated) {
+        // The component itself, when it is encapsulated here, rather than the first component that equals it.
+        auto holder = holderWithin(oldComponent, this);
+        if (holder != nullptr) {
+            return holder->replaceComponent(oldComponent, newComponent, false);
+        }
+    }
+
     bool status = replaceComponent(size_t(pFunc()->findComponent(oldComponent) - pFunc()->mComponents.begin()), newComponent);
 
     if (searchEncapsulated && !status) {
